@@ -68,3 +68,21 @@ Theorem C08_rpc_id_accepted_once : forall strict ls s, rrun strict r_init ls = S
   k_err (r_k s) = false /\ v_err (r_v s) = false.
 Proof. exact rpc_tunnel_survives. Qed.
 Print Assumptions C08_rpc_id_accepted_once.
+
+(* ---- many RPCs on one tunnel (MultiRpc.v): ids under the creation lock ---- *)
+From GT Require Import MultiRpc MultiRpcProofs MultiRpcIds.
+(* the new_stream frames are on the wire in strictly increasing id order, one per started RPC *)
+Theorem C08_multi_ids_increase_on_the_wire : forall n strict ls m,
+  mrun strict (m_init n) ls = Some m -> exists c, (c <= n)%nat /\ newsof (mh_c m) = seq 0 c.
+Proof. exact multi_ids_increase_on_the_wire. Qed.
+Print Assumptions C08_multi_ids_increase_on_the_wire.
+(* the serve loop's test "id <= lastSeen" is exactly "this stream's new_stream was seen": ids are never
+   refused although fresh, never accepted although used *)
+Theorem C08_multi_lastseen_exact : forall n strict ls m j,
+  mrun strict (m_init n) ls = Some m -> (j < n)%nat -> seen (p_v (get m j)) = Nat.ltb j (m_last m).
+Proof. exact multi_lastseen_exact. Qed.
+Print Assumptions C08_multi_lastseen_exact.
+Theorem C08_multi_one_invocation_each : forall strict n ls m i,
+  mrun strict (m_init n) ls = Some m -> (i < n)%nat -> (p_n (get m i) <= 1)%nat.
+Proof. exact multi_one_invocation_each. Qed.
+Print Assumptions C08_multi_one_invocation_each.
